@@ -802,7 +802,8 @@ Fixpoint check_iso_shared_from (prev : nxg) (pn : N) (l : list iso_obs) : bool :
       let '(s', r') := sstep (mkS prev pn) o in
       alloc_ok prev pn cur cn &&
       (if storage_op o then res_eqb r' r && nxg_eqb (sg s') cur && N.eqb (snext s') cn
-       else forallb (fun g => writes_gid o g || view_eqb (view (sg s') g) (view cur g))
+       else (negb (frame_scope o) && match o with OMerge _ _ _ _ => false | _ => true end) ||   (* re-homing by rewriting GraphID: no isolation claim *)
+            forallb (fun g => writes_gid o g || view_eqb (view (sg s') g) (view cur g))
                     (gids_of_nodes (gn prev) ++ gids_of_nodes (gn cur) ++ gids_of_nodes (gn (sg s')))) &&
       check_iso_shared_from cur cn rest
   end.
